@@ -89,7 +89,32 @@ def runRfault (line : String) : String :=
     | _, _, _ => "bad-op"
   | _ => "bad-op"
 
+/-- stream `c08_otlp` : (c08o T P L TR M) — `Otlp::blocking_flush(T ms)` over three channels whose one event each is
+    `ack`ed at once, `hold` (answered P % of T after the flush started), `stall`ed (never answered) or `absent`.
+    → flush=<bool> over=false: the result is `flushSeq`'s, and the call returns within the ONE budget
+    (C08.otlp_flush_within_budget: the instant it returns is ≤ T). -/
+def runC08o (line : String) : String :=
+  match Sexp.parse line with
+  | some (.list [.atom "c08o", t, p, .atom l, .atom tr, .atom m]) =>
+    match t.nat?, p.nat? with
+    | some t, some p =>
+      let kind? : String → Option (Option (Option Nat)) := fun k =>
+        if k == "absent" then some none
+        else if k == "ack" then some (some (some 0))
+        else if k == "hold" then some (some (some (t * p / 100)))
+        else if k == "stall" then some (some none)
+        else none
+      match kind? l, kind? tr, kind? m with
+      | some l, some tr, some m =>
+        if t < 200 || t > 5000 || p > 90 then "bad-op" else
+        let cs := [l, tr, m].filterMap id
+        let r := OtlpE2E.flushSeq t cs 0
+        s!"flush={r.1} over={decide (r.2 > t)}\tsignals={cs.length},at={min (r.2 * 4 / t) 4}"
+      | _, _, _ => "bad-op"
+    | _, _ => "bad-op"
+  | _ => "bad-op"
+
 def streams : List (String × (String → String)) :=
-  [("c07_otlp", runC07o), ("c09_otlp", runC09o), ("c07_file", runC07f), ("c11_realfs", runRfs), ("c10_realfs", runRfault)]
+  [("c08_otlp", runC08o), ("c07_otlp", runC07o), ("c09_otlp", runC09o), ("c07_file", runC07f), ("c11_realfs", runRfs), ("c10_realfs", runRfault)]
 
 end EmitModel.Driver.E2E
